@@ -4,7 +4,7 @@
      sc a       no Count with a non-identity transform occurs in a (Count refuses to be scaled)
      scale f s  the stream s with every weight multiplied by f *)
 From Coq Require Import List Bool QArith Qcanon.
-From Hgm Require Import NumOps Xq Agg Ops XqFacts Algebra MulAlg Stream.
+From Hgm Require Import NumOps Xq Agg Ops XqFacts Algebra MulAlg Stream Json JsonRT JsonMul.
 Import ListNotations.
 
 (* h * f = the aggregate of the same data with every weight multiplied by f *)
@@ -40,7 +40,17 @@ Proof. exact mul_add. Qed.
 Theorem C08_first_class : forall (a : agg Xq) f, finpos f -> wf a -> wf (mul_t a f) /\ same (mul_t a f) a.
 Proof. intros a f Hf W. split; [apply wf_mul; assumption | apply same_mul]. Qed.
 
+(* scaling commutes with the JSON round trip: reloading h * f gives (the reload of h) * f, and that
+   tree writes the document of h * f (every tree the reader accepts, C04_round_trip) *)
+Theorem C08_commutes_with_json : forall (a : agg Xq) f fuel,
+  finpos f -> jwf a -> (height a <= fuel)%nat ->
+  from_json fuel (to_json (mul_t a f)) = Ok (mul_t (reload a (qname_of a)) f) /\
+  from_json fuel (to_json a) = Ok (reload a (qname_of a)) /\
+  to_json (mul_t (reload a (qname_of a)) f) = to_json (mul_t a f).
+Proof. exact json_mul_commute. Qed.
+
 Print Assumptions C08_refill.
+Print Assumptions C08_commutes_with_json.
 Print Assumptions C08_mul_accepts.
 Print Assumptions C08_count_transform_refuses.
 Print Assumptions C08_nonpositive.
